@@ -72,8 +72,9 @@ func (c *Ctx) computeInfeasible() {
 			default:
 				continue
 			}
-			if isNilConst(stripConv(x)) {
-				// nil compared with nil (a function variable bound to nil by the expansion of a dispatch table)
+			if isNilConst(stripConv(x)) || isNilConst(stripConv(c.Resolve(x))) {
+				// nil compared with nil (a function variable bound to nil by the expansion of a dispatch table; a hook field or
+				// package variable that nothing in the library ever assigns)
 				if bin.Op == token.EQL {
 					infeasibleEdges[b] = 1 + 1
 				} else {
